@@ -88,6 +88,12 @@ BUILTINS = {
     # comparison of an f64 place with a float literal:  *n != 0.0  ->  f64_ne(*n, 0.0)
     'f64cmp': (r'(\*\w+|\b\w+)\s*(!=|==|>=|<=|>|<)\s*(-?\d+\.\d+)\b',
                lambda m: '%s(%s, %s)' % (_CMP[m.group(2)], m.group(1), m.group(3))),
+    # self.symbols.iter()[.rev()].map(|table| table.lookup_X(name)).find(Self::stop_searching)
+    #   -> search_lookup_X(&self.symbols, <rev present?>, name)        (rule 5: direction read off the chain; the
+    #      predicate must be stop_searching and the element function a SymTable lookup of `name`)
+    'scope_search': (r'self\s*\.symbols\s*\.iter\(\)\s*(\.rev\(\))?\s*\.map\(\|table\| table\.(lookup_var|lookup_func)\(name\)\)'
+                     r'\s*\.find\(Self::stop_searching\)',
+                     lambda m: 'search_%s(&self.symbols, %s, name)' % (m.group(2), 'true' if m.group(1) else 'false')),
     # Val::Number(a + b)  ->  Val::Number(f64_binop('+', *a, *b))   (a, b are `&f64` bindings)
     'f64arith': (r'Val::Number\((\w+) ([-+*/]) (\w+)\)',
                  lambda m: "Val::Number(f64_binop('%s', *%s, *%s))" % (m.group(2), m.group(1), m.group(3))),
